@@ -854,3 +854,25 @@ ACCESSOR_TOTAL = [
     _total('sqlparse.sql.Function.get_parameters', params={'self': make_function_node},
            requires=['self.token_next_by(i=Parenthesis)[1] is not None']),
 ]
+
+
+# --------------------------------------------------------------------------------- IdentifierList.get_identifiers (C13)
+
+class get_identifiers_c:
+    """the generator visits the children in list order and yields exactly those that are neither whitespace nor a comma
+    (per iteration: one yield for such a child, none otherwise; every yielded item is such a child)"""
+    exec_class = HeapExec
+    params = {'self': make_identifier_any}
+    ghost = {'YCOUNT': '0'}
+    on_yield = 'YCOUNT = YCOUNT + 1'
+    yield_asserts = ['item.is_whitespace == False', "not item.match(T.Punctuation, ',')", 'item is token']
+    loops = {'0': {'arbitrary': True,
+                   'iter_post': ["YCOUNT == iter_start(YCOUNT) + (0 if (token.is_whitespace or token.match(T.Punctuation, ',')) "
+                                 "else 1)"]}}
+    requires = []
+    ensures = []
+    raises = []
+    serves = ['C13', 'C07']
+
+
+REG.add('sqlparse.sql.IdentifierList.get_identifiers', 'body', get_identifiers_c)
